@@ -89,7 +89,7 @@ Proof. unfold ainsert. cbn. intros [H|H]; [inversion H; auto | right; eapply are
 Definition gd_ok (gd : list nat) (g st : nat) : Prop := nth_error gd g = Some st.
 Definition map_ok (gd : list nat) (m : list (nat * (nat * nat))) : Prop := forall n g st, In (n, (g, st)) m -> gd_ok gd g st.
 Definition item_ok (gd : list nat) (it : item) : Prop :=
-  match it with IParse g st | IBind g st _ | IDesc g st _ => gd_ok gd g st | _ => True end.
+  match it with IParse g st | IBind g st _ _ | IDesc g st _ => gd_ok gd g st | _ => True end.
 Definition tab_ok (gd : list nat) (t : list (nat * nat)) : Prop := forall g st, In (g, st) t -> gd_ok gd g st.
 Definition pool_ok (K : cfg) (gd : list nat) (pl : list (nat * (nat * nat))) : Prop :=
   forall h g st, In (h, (g, st)) pl -> gd_ok gd g st /\ h = hash K st.
@@ -114,7 +114,8 @@ Proof.
       destruct (alookup g (b_tab b)); cbn; auto; intros g' st' [H|H]; try (inversion H; subst; exact Hm); auto.
   - destruct (b_skip b); cbn; auto. destruct (alookup g (b_tab b)); cbn; auto.
   - destruct (b_skip b); cbn; auto. destruct (alookup g (b_tab b)); cbn; auto.
-  - destruct (b_skip b); cbn; auto. destruct (b_portal b); cbn; auto. destruct (kind K n); cbn; auto. intros ? ? [].
+  - destruct (b_skip b); cbn; auto. destruct (alookup p (b_portal b)); cbn; auto.
+  - destruct (b_skip b); cbn; auto. destruct (alookup p (b_portal b)); cbn; auto. destruct (kind K n); cbn; auto. intros ? ? [].
   - destruct (b_skip b); cbn; auto. intros g' st' H. apply aremove_In in H. auto.
 Qed.
 
@@ -130,9 +131,9 @@ Qed.
 Lemma exchange_tab_ok K gd sv ms : tab_ok gd (btab sv) -> Forall (msg_ok gd) ms -> tab_ok gd (btab (fst (exchange K sv ms))).
 Proof.
   intros Ht Hm. unfold exchange.
-  pose proof (brun_tab_ok K gd (ms ++ [BSync]) (mkB (btab sv) None false) Ht) as H.
+  pose proof (brun_tab_ok K gd (ms ++ [BSync]) (mkB (btab sv) [] false) Ht) as H.
   assert (Hf : Forall (msg_ok gd) (ms ++ [BSync])) by (apply Forall_app; split; auto; repeat constructor).
-  specialize (H Hf). destruct (brun K (mkB (btab sv) None false) (ms ++ [BSync])) as [b rs].
+  specialize (H Hf). destruct (brun K (mkB (btab sv) [] false) (ms ++ [BSync])) as [b rs].
   destruct (recv K (lru sv) (queue sv) rs) as [l q]. exact H.
 Qed.
 
@@ -179,7 +180,7 @@ Qed.
 Lemma sitem_ok K gd a it : acc_ok K gd a -> item_ok gd it -> Forall (msg_ok gd) (a_fwd a) ->
   acc_ok K gd (sitem K a it) /\ Forall (msg_ok gd) (a_fwd (sitem K a it)).
 Proof.
-  intros Ha Hi Hf. destruct it as [g st|g st n|g st n| |n]; cbn [sitem].
+  intros Ha Hi Hf. destruct it as [g st|g st n p|g st n|p|p|n|p]; cbn [sitem].
   - destruct (mem g (lru (a_sv a))).
     + cbn. destruct Ha as (? & ? & ?). split; [split; [|split]|]; cbn; auto.
     + destruct Ha as (Hm & Ht & Hp). pose proof (register_tab_ok K gd (a_sv a) g st false Ht Hi) as Hr.
@@ -190,8 +191,10 @@ Proof.
   - destruct (ensure_ok K gd a n g st Ha Hi) as ((? & ? & ?) & Hfw & ?).
     cbn. split; [split; [|split]|]; cbn; auto. rewrite Hfw. apply Forall_app. split; auto; repeat constructor.
   - cbn. destruct Ha as (? & ? & ?). split; [split; [|split]|]; cbn; auto. apply Forall_app. split; auto; repeat constructor.
+  - cbn. destruct Ha as (? & ? & ?). split; [split; [|split]|]; cbn; auto. apply Forall_app. split; auto; repeat constructor.
   - destruct Ha as (? & ? & ?). destruct (n =? 0); cbn; (split; [split; [|split]|]); cbn; auto.
     apply Forall_app. split; auto; repeat constructor.
+  - cbn. destruct Ha as (? & ? & ?). split; [split; [|split]|]; cbn; auto. apply Forall_app. split; auto; repeat constructor.
 Qed.
 
 Lemma sitems_ok K gd its : forall a, acc_ok K gd a -> Forall (item_ok gd) its -> Forall (msg_ok gd) (a_fwd a) ->
@@ -252,7 +255,7 @@ Qed.
 Lemma winv_step K w o : WInv K w -> WInv K (fst (step K w o)).
 Proof.
   intros HW. pose proof HW as (Hp & Hc & Hs).
-  destruct o as [c n st|c n|c n|c|c n|c s|s]; cbn.
+  destruct o as [c n st|c p n|c n|c p|c p|c n|c p|c s|s]; cbn.
   - (* Parse *)
     destruct (alive (clients w c)); cbn; auto.
     destruct (pool_get_or_insert K w st) as [w1 [g st']] eqn:E.
@@ -273,9 +276,13 @@ Proof.
     apply Forall_app. split; [apply Hc | repeat constructor]. cbn. eapply (proj1 (Hc c)). apply alookup_In. exact El.
   - destruct (alive (clients w c)); cbn; auto. apply winv_client; cbn; auto; try apply Hc.
     apply Forall_app. split; [apply Hc | repeat constructor].
+  - destruct (alive (clients w c)); cbn; auto. apply winv_client; cbn; auto; try apply Hc.
+    apply Forall_app. split; [apply Hc | repeat constructor].
   - destruct (alive (clients w c)); cbn; auto. apply winv_client; cbn; auto.
     + destruct (n =? 0); [apply Hc | apply map_ok_aremove; apply Hc].
     + apply Forall_app. split; [apply Hc | repeat constructor].
+  - destruct (alive (clients w c)); cbn; auto. apply winv_client; cbn; auto; try apply Hc.
+    apply Forall_app. split; [apply Hc | repeat constructor].
   - (* Sync *)
     destruct (alive (clients w c)); cbn; auto.
     assert (Ha0 : acc_ok K (gdef w) (mkAcc (cmap (clients w c)) (servers w s) (plru w) [] [])) by (unfold acc_ok; cbn; csplits; auto; apply Hc).
@@ -427,18 +434,21 @@ Qed.
 
 Definition pname (m : bmsg) : list nat := match m with BParse g _ => [g] | _ => [] end.
 Definition pnames (ms : list bmsg) : list nat := flat_map pname ms.
-Definition mref (m : bmsg) : list nat := match m with BParse g _ | BBind g | BDesc g | BClose g => [g] | _ => [] end.
+Definition mref (m : bmsg) : list nat := match m with BParse g _ | BBind g _ | BDesc g | BClose g => [g] | _ => [] end.
 Definition refs (ms : list bmsg) : list nat := flat_map mref ms.
 
-(* [D]: names the backend knows before the batch; accumulates the batch's own Parses *)
+(* [D]: names the backend knows before the batch; accumulates the batch's own Parses.  Portal
+   messages (Describe/Execute/Close of a portal) say nothing about statement names. *)
 Fixpoint fwd_good (K : cfg) (gd : list nat) (D : nat -> Prop) (ms : list bmsg) : Prop :=
   match ms with
   | [] => True
   | BParse g st :: r => ~ D g /\ kind K st = Good /\ nth_error gd g = Some st /\ fwd_good K gd (fun x => x = g \/ D x) r
-  | BBind g :: r => D g /\ fwd_good K gd D r
+  | BBind g _ :: r => D g /\ fwd_good K gd D r
   | BDesc g :: r => D g /\ fwd_good K gd D r
-  | BExec :: r => fwd_good K gd D r
+  | BDescP _ :: r => fwd_good K gd D r
+  | BExec _ :: r => fwd_good K gd D r
   | BCloseUnnamed :: r => fwd_good K gd D r
+  | BCloseP _ :: r => fwd_good K gd D r
   | BClose _ :: _ => False
   | BSync :: _ => False
   end.
@@ -446,84 +456,100 @@ Fixpoint fwd_good (K : cfg) (gd : list nat) (D : nat -> Prop) (ms : list bmsg) :
 Lemma fwd_good_ext K gd ms : forall D D', (forall g, In g (refs ms) -> (D g <-> D' g)) -> fwd_good K gd D ms -> fwd_good K gd D' ms.
 Proof.
   induction ms as [|m r IH]; intros D D' He H; cbn in *; auto.
-  destruct m; cbn in *; try tauto.
+  destruct m; cbn in *; try tauto; try (eapply IH; eauto; fail).
   - destruct H as (H1 & H2 & H3 & H4). repeat split; auto.
     + rewrite <- He; auto.
     + eapply IH; [|exact H4]. intros x Hx. cbn. rewrite He; [tauto | auto].
   - destruct H as [H1 H2]. split; [rewrite <- He; auto | eapply IH; eauto].
   - destruct H as [H1 H2]. split; [rewrite <- He; auto | eapply IH; eauto].
-  - eapply IH; eauto.
-  - eapply IH; eauto.
 Qed.
 
 Lemma fwd_good_snoc K gd ms : forall D m, fwd_good K gd D ms ->
   match m with
   | BParse g st => ~ D g /\ ~ In g (pnames ms) /\ kind K st = Good /\ nth_error gd g = Some st
-  | BBind g | BDesc g => D g \/ In g (pnames ms)
-  | BExec | BCloseUnnamed => True
+  | BBind g _ | BDesc g => D g \/ In g (pnames ms)
+  | BExec _ | BDescP _ | BCloseP _ | BCloseUnnamed => True
   | _ => False
   end -> fwd_good K gd D (ms ++ [m]).
 Proof.
   induction ms as [|m0 r IH]; intros D m H Hm; cbn in *.
   - destruct m; cbn; tauto.
-  - destruct m0; cbn in *; try tauto.
+  - destruct m0; cbn in *; try tauto; try (apply IH; auto; fail).
     + destruct H as (H1 & H2 & H3 & H4). repeat split; auto. apply IH; auto.
       destruct m; auto; try (unfold pnames in *; destruct Hm as [X|[X|X]]; auto; fail).
       destruct Hm as (A & B & C & E). repeat split; auto. intros [X|X]; [subst; apply B; auto | tauto].
     + destruct H as [H1 H2]. split; auto.
     + destruct H as [H1 H2]. split; auto.
-    + apply IH; auto.
-    + apply IH; auto.
 Qed.
 
-(* replies the backend gives to a good batch; [p] = the statement of the current portal *)
-Fixpoint fexp (gd : list nat) (p : option nat) (ms : list bmsg) : list reply :=
+(* replies the backend gives to a good batch; [pt] = the open portals (name -> statement) *)
+Definition ptabT := list (nat * nat).
+Definition prep (mk : nat -> reply) (o : option nat) : reply := match o with Some st => mk st | None => RErr end.
+Fixpoint fexp (gd : list nat) (pt : ptabT) (ms : list bmsg) : list reply :=
   match ms with
   | [] => []
-  | BParse _ _ :: r => R1 :: fexp gd p r
-  | BBind g :: r => R2 :: fexp gd (Some (nth g gd 0)) r
-  | BDesc g :: r => RDescr (nth g gd 0) :: fexp gd p r
-  | BExec :: r => match p with Some st => RRow st | None => RErr end :: fexp gd p r
-  | BCloseUnnamed :: r => R3 :: fexp gd p r
-  | _ :: r => fexp gd p r
+  | BParse _ _ :: r => R1 :: fexp gd pt r
+  | BBind g p :: r => R2 :: fexp gd (ainsert p (nth g gd 0) pt) r
+  | BDesc g :: r => RDescr (nth g gd 0) :: fexp gd pt r
+  | BDescP p :: r => prep RDescrP (alookup p pt) :: fexp gd pt r
+  | BExec p :: r => prep RRow (alookup p pt) :: fexp gd pt r
+  | BCloseUnnamed :: r => R3 :: fexp gd pt r
+  | BCloseP p :: r => R3 :: fexp gd (aremove p pt) r
+  | _ :: r => fexp gd pt r
   end.
-Fixpoint fportal (gd : list nat) (p : option nat) (ms : list bmsg) : option nat :=
+Fixpoint fportal (gd : list nat) (pt : ptabT) (ms : list bmsg) : ptabT :=
   match ms with
-  | [] => p
-  | BBind g :: r => fportal gd (Some (nth g gd 0)) r
-  | _ :: r => fportal gd p r
+  | [] => pt
+  | BBind g p :: r => fportal gd (ainsert p (nth g gd 0) pt) r
+  | BCloseP p :: r => fportal gd (aremove p pt) r
+  | _ :: r => fportal gd pt r
   end.
-(* every Execute of the batch has a portal *)
-Fixpoint fexec_ok (p : bool) (ms : list bmsg) : Prop :=
+(* every Execute / Describe('P') of the batch names an open portal *)
+Fixpoint fexec_ok (gd : list nat) (pt : ptabT) (ms : list bmsg) : Prop :=
   match ms with
   | [] => True
-  | BBind _ :: r => fexec_ok true r
-  | BExec :: r => p = true /\ fexec_ok p r
-  | _ :: r => fexec_ok p r
+  | BBind g p :: r => fexec_ok gd (ainsert p (nth g gd 0) pt) r
+  | BCloseP p :: r => fexec_ok gd (aremove p pt) r
+  | BExec p :: r => alookup p pt <> None /\ fexec_ok gd pt r
+  | BDescP p :: r => alookup p pt <> None /\ fexec_ok gd pt r
+  | _ :: r => fexec_ok gd pt r
   end.
 
 Definition tab_good (K : cfg) (t : list (nat * nat)) : Prop := forall g st, In (g, st) t -> kind K st = Good.
+Definition pt_good (K : cfg) (pt : ptabT) : Prop := forall p st, alookup p pt = Some st -> kind K st = Good.
+
+Lemma pt_good_insert K pt p st : pt_good K pt -> kind K st = Good -> pt_good K (ainsert p st pt).
+Proof.
+  intros H Hk p' st' Hl. destruct (Nat.eq_dec p' p) as [->|Hne].
+  - rewrite alookup_ainsert_eq in Hl. inversion Hl; subst. exact Hk.
+  - rewrite alookup_ainsert_neq in Hl by assumption. eauto.
+Qed.
+Lemma pt_good_remove K pt p : pt_good K pt -> pt_good K (aremove p pt).
+Proof.
+  intros H p' st' Hl. destruct (Nat.eq_dec p' p) as [->|Hne].
+  - rewrite alookup_aremove_eq in Hl. discriminate.
+  - rewrite alookup_aremove_neq in Hl by assumption. eauto.
+Qed.
 
 Lemma nth_of_gd gd g st : nth_error gd g = Some st -> nth g gd 0 = st.
 Proof. intros H. apply nth_error_nth. exact H. Qed.
 
-Lemma brun_good K gd ms : forall t p,
+Lemma brun_good K gd ms : forall t pt,
   tab_ok gd t -> tab_good K t ->
   fwd_good K gd (fun g => alookup g t <> None) ms ->
-  fexec_ok (match p with Some _ => true | None => false end) ms ->
-  (forall st, p = Some st -> kind K st = Good) ->
-  exists t', brun K (mkB t p false) ms = (mkB t' (fportal gd p ms) false, fexp gd p ms) /\
+  fexec_ok gd pt ms -> pt_good K pt ->
+  exists t', brun K (mkB t pt false) ms = (mkB t' (fportal gd pt ms) false, fexp gd pt ms) /\
              tab_ok gd t' /\ tab_good K t' /\
              (forall g, alookup g t' <> None <-> (alookup g t <> None \/ In g (pnames ms))) /\
-             (forall st, In (RRow st) (fexp gd p ms) -> kind K st = Good).
+             (forall st, In (RRow st) (fexp gd pt ms) -> kind K st = Good).
 Proof.
-  induction ms as [|m r IH]; intros t p Ht Hg Hf He Hp; cbn [brun fexp fportal].
+  induction ms as [|m r IH]; intros t pt Ht Hg Hf He Hp; cbn [brun fexp fportal].
   - exists t. split; [reflexivity|]. split; [exact Ht|]. split; [exact Hg|]. split; [cbn; tauto | intros st []].
   - destruct m; cbn in Hf; try contradiction.
     + (* BParse *)
       destruct Hf as (Hn & Hk & Hgd & Hf). cbn [bstep b_skip b_tab b_portal]. rewrite Hk.
       destruct (alookup g t) eqn:El; [exfalso; apply Hn; congruence|].
-      destruct (IH ((g, st) :: t) p) as (t' & Hr & Ht' & Hg' & Hd & Hrows); auto.
+      destruct (IH ((g, st) :: t) pt) as (t' & Hr & Ht' & Hg' & Hd & Hrows); auto.
       * intros g' st' [H|H]; [inversion H; subst; exact Hgd | auto].
       * intros g' st' [H|H]; [inversion H; subst; exact Hk | eauto].
       * eapply fwd_good_ext; [|exact Hf]. intros x _. cbn. destruct (x =? g) eqn:E.
@@ -540,30 +566,42 @@ Proof.
       destruct Hf as [Hdg Hf]. cbn [bstep b_skip b_tab b_portal].
       destruct (alookup g t) as [st|] eqn:El; [|contradiction].
       assert (Hst : nth g gd 0 = st). { apply nth_of_gd. apply Ht. apply alookup_In. exact El. }
-      rewrite Hst. cbn in He.
-      destruct (IH t (Some st)) as (t' & Hr & Ht' & Hg' & Hd & Hrows); auto.
-      * intros st0 H0. inversion H0; subst. eapply Hg. apply alookup_In. exact El.
+      cbn [fexec_ok] in He. rewrite Hst in *.
+      destruct (IH t (ainsert p st pt)) as (t' & Hr & Ht' & Hg' & Hd & Hrows); auto.
+      * apply pt_good_insert; auto. eapply Hg. apply alookup_In. exact El.
       * exists t'. rewrite Hr. split; [reflexivity|]. split; [exact Ht'|]. split; [exact Hg'|]. split; [exact Hd|].
         intros st0 [X|X]; [discriminate | auto].
     + (* BDesc *)
       destruct Hf as [Hdg Hf]. cbn [bstep b_skip b_tab b_portal].
       destruct (alookup g t) as [st|] eqn:El; [|contradiction].
       assert (Hst : nth g gd 0 = st). { apply nth_of_gd. apply Ht. apply alookup_In. exact El. }
-      rewrite Hst. cbn in He.
-      destruct (IH t p) as (t' & Hr & Ht' & Hg' & Hd & Hrows); auto.
-      exists t'. destruct p; rewrite Hr; (split; [reflexivity|]; split; [exact Ht'|]; split; [exact Hg'|]; split; [exact Hd|]);
-        intros st0 [X|X]; try discriminate; auto.
-    + (* BExec *)
-      cbn in He. destruct He as [Hpt He]. cbn [bstep b_skip b_tab b_portal].
-      destruct p as [st|]; [|discriminate]. rewrite (Hp st eq_refl).
-      destruct (IH t (Some st)) as (t' & Hr & Ht' & Hg' & Hd & Hrows); auto.
+      rewrite Hst. cbn [fexec_ok] in He.
+      destruct (IH t pt) as (t' & Hr & Ht' & Hg' & Hd & Hrows); auto.
       exists t'. rewrite Hr. split; [reflexivity|]. split; [exact Ht'|]. split; [exact Hg'|]. split; [exact Hd|].
-      intros st0 [X|X]; [inversion X; subst; apply Hp; reflexivity | auto].
+      intros st0 [X|X]; [discriminate | auto].
+    + (* BDescP *)
+      cbn [fexec_ok] in He. destruct He as [Hpt He]. cbn [bstep b_skip b_tab b_portal].
+      destruct (alookup p pt) as [st|] eqn:Ep; [|congruence].
+      destruct (IH t pt) as (t' & Hr & Ht' & Hg' & Hd & Hrows); auto.
+      exists t'. rewrite Hr. cbn [prep]. split; [reflexivity|]. split; [exact Ht'|]. split; [exact Hg'|]. split; [exact Hd|].
+      intros st0 [X|X]; [discriminate | auto].
+    + (* BExec *)
+      cbn [fexec_ok] in He. destruct He as [Hpt He]. cbn [bstep b_skip b_tab b_portal].
+      destruct (alookup p pt) as [st|] eqn:Ep; [|congruence]. rewrite (Hp p st Ep).
+      destruct (IH t pt) as (t' & Hr & Ht' & Hg' & Hd & Hrows); auto.
+      exists t'. rewrite Hr. cbn [prep]. split; [reflexivity|]. split; [exact Ht'|]. split; [exact Hg'|]. split; [exact Hd|].
+      intros st0 [X|X]; [inversion X; subst; eapply Hp; eauto | auto].
     + (* BCloseUnnamed *)
-      cbn in He. cbn [bstep b_skip b_tab b_portal].
-      destruct (IH t p) as (t' & Hr & Ht' & Hg' & Hd & Hrows); auto.
-      exists t'. destruct p; rewrite Hr; (split; [reflexivity|]; split; [exact Ht'|]; split; [exact Hg'|]; split; [exact Hd|]);
-        intros st0 [X|X]; try discriminate; auto.
+      cbn [fexec_ok] in He. cbn [bstep b_skip b_tab b_portal].
+      destruct (IH t pt) as (t' & Hr & Ht' & Hg' & Hd & Hrows); auto.
+      exists t'. rewrite Hr. split; [reflexivity|]. split; [exact Ht'|]. split; [exact Hg'|]. split; [exact Hd|].
+      intros st0 [X|X]; [discriminate | auto].
+    + (* BCloseP *)
+      cbn [fexec_ok] in He. cbn [bstep b_skip b_tab b_portal].
+      destruct (IH t (aremove p pt)) as (t' & Hr & Ht' & Hg' & Hd & Hrows); auto.
+      * apply pt_good_remove. exact Hp.
+      * exists t'. rewrite Hr. split; [reflexivity|]. split; [exact Ht'|]. split; [exact Hg'|]. split; [exact Hd|].
+        intros st0 [X|X]; [discriminate | auto].
 Qed.
 
 Definition quiet (K : cfg) (rs : list reply) : Prop :=
@@ -578,15 +616,17 @@ Proof.
   - exfalso. apply H1. left. reflexivity.
 Qed.
 
-Lemma fexp_noerr gd ms : forall p, fexec_ok (match p with Some _ => true | None => false end) ms -> ~ In RErr (fexp gd p ms).
+Lemma fexp_noerr gd ms : forall pt, fexec_ok gd pt ms -> ~ In RErr (fexp gd pt ms).
 Proof.
-  induction ms as [|m r IH]; intros p He; cbn [fexp]; [intros []|].
-  destruct m; cbn in He.
+  induction ms as [|m r IH]; intros pt He; cbn [fexp]; [intros []|].
+  destruct m; cbn [fexec_ok] in He.
   - intros X. destruct X as [H|H]; [discriminate | eapply IH; eauto].
-  - intros X. destruct X as [H|H]; [discriminate | eapply (IH (Some (nth g gd 0))); eauto].
   - intros X. destruct X as [H|H]; [discriminate | eapply IH; eauto].
-  - destruct He as [Hp He]. destruct p; [|discriminate]. intros X. destruct X as [H|H]; [discriminate | eapply (IH (Some n)); [exact He | exact H]].
+  - intros X. destruct X as [H|H]; [discriminate | eapply IH; eauto].
+  - destruct He as [Hp He]. destruct (alookup p pt); [|congruence]. intros X. destruct X as [H|H]; [discriminate | eapply IH; eauto].
+  - destruct He as [Hp He]. destruct (alookup p pt); [|congruence]. intros X. destruct X as [H|H]; [discriminate | eapply IH; eauto].
   - eapply IH; eauto.
+  - intros X. destruct X as [H|H]; [discriminate | eapply IH; eauto].
   - intros X. destruct X as [H|H]; [discriminate | eapply IH; eauto].
   - eapply IH; eauto.
 Qed.
@@ -604,10 +644,12 @@ Fixpoint brel (gd : list nat) (M : cmapT) (os : list op) (its : list item) (Mf :
   match os, its with
   | [], [] => Mf = M
   | Parse _ n st :: os', IParse g st' :: its' => st' = st /\ nth_error gd g = Some st /\ brel gd (ainsert n (g, st) M) os' its' Mf
-  | Bind _ n :: os', IBind g st n' :: its' => n' = n /\ alookup n M = Some (g, st) /\ nth_error gd g = Some st /\ brel gd M os' its' Mf
+  | Bind _ p n :: os', IBind g st n' p' :: its' => (n' = n /\ p' = p) /\ alookup n M = Some (g, st) /\ nth_error gd g = Some st /\ brel gd M os' its' Mf
   | Describe _ n :: os', IDesc g st n' :: its' => n' = n /\ alookup n M = Some (g, st) /\ nth_error gd g = Some st /\ brel gd M os' its' Mf
-  | Execute _ :: os', IExec :: its' => brel gd M os' its' Mf
+  | DescribeP _ p :: os', IDescP p' :: its' => p' = p /\ brel gd M os' its' Mf
+  | Execute _ p :: os', IExec p' :: its' => p' = p /\ brel gd M os' its' Mf
   | Close _ n :: os', IClose n' :: its' => n' = n /\ brel gd (if n =? 0 then M else aremove n M) os' its' Mf
+  | CloseP _ p :: os', IClosePortal p' :: its' => p' = p /\ brel gd M os' its' Mf   (* the map is not touched *)
   | _, _ => False
   end.
 
@@ -617,9 +659,11 @@ Proof.
   intros Hm. induction os as [|o os IH]; intros M its Mf H; destruct its as [|it its]; cbn in *; auto; try contradiction; try (destruct o; contradiction).
   destruct o; destruct it; cbn in *; try contradiction.
   - destruct H as (A & B & C). repeat split; auto.
+  - destruct H as (A & B & C & D). repeat split; auto; apply A.
   - destruct H as (A & B & C & D). repeat split; auto.
-  - destruct H as (A & B & C & D). repeat split; auto.
-  - auto.
+  - destruct H as (A & B). split; auto.
+  - destruct H as (A & B). split; auto.
+  - destruct H as (A & B). split; auto.
   - destruct H as (A & B). split; auto.
 Qed.
 
@@ -627,10 +671,12 @@ Qed.
 Definition snoc_ok (gd : list nat) (Mf : cmapT) (o : op) (it : item) (Mf' : cmapT) : Prop :=
   match o, it with
   | Parse _ n st, IParse g st' => st' = st /\ nth_error gd g = Some st /\ Mf' = ainsert n (g, st) Mf
-  | Bind _ n, IBind g st n' => n' = n /\ alookup n Mf = Some (g, st) /\ nth_error gd g = Some st /\ Mf' = Mf
+  | Bind _ p n, IBind g st n' p' => (n' = n /\ p' = p) /\ alookup n Mf = Some (g, st) /\ nth_error gd g = Some st /\ Mf' = Mf
   | Describe _ n, IDesc g st n' => n' = n /\ alookup n Mf = Some (g, st) /\ nth_error gd g = Some st /\ Mf' = Mf
-  | Execute _, IExec => Mf' = Mf
+  | DescribeP _ p, IDescP p' => p' = p /\ Mf' = Mf
+  | Execute _ p, IExec p' => p' = p /\ Mf' = Mf
   | Close _ n, IClose n' => n' = n /\ Mf' = (if n =? 0 then Mf else aremove n Mf)
+  | CloseP _ p, IClosePortal p' => p' = p /\ Mf' = Mf
   | _, _ => False
   end.
 
@@ -641,13 +687,17 @@ Proof.
     + destruct Hs as (A & B & C). subst. auto.
     + destruct Hs as (A & B & C & D). subst. auto.
     + destruct Hs as (A & B & C & D). subst. auto.
-    + subst. auto.
+    + destruct Hs as (A & B). subst. auto.
+    + destruct Hs as (A & B). subst. auto.
+    + destruct Hs as (A & B). subst. auto.
     + destruct Hs as (A & B). subst. auto.
   - destruct o0; destruct it0; cbn in H; try contradiction; cbn.
     + destruct H as (A & B & C). repeat split; auto. eapply IH; eauto.
+    + destruct H as (A & B & C & D). repeat split; auto; try apply A. eapply IH; eauto.
     + destruct H as (A & B & C & D). repeat split; auto. eapply IH; eauto.
-    + destruct H as (A & B & C & D). repeat split; auto. eapply IH; eauto.
-    + eapply IH; eauto.
+    + destruct H as (A & B). split; auto. eapply IH; eauto.
+    + destruct H as (A & B). split; auto. eapply IH; eauto.
+    + destruct H as (A & B). split; auto. eapply IH; eauto.
     + destruct H as (A & B). split; auto. eapply IH; eauto.
 Qed.
 
@@ -674,37 +724,40 @@ Proof.
 Qed.
 
 (* walking a prefix of a guarded batch *)
-Lemma walk K gd : forall os M its Mf tab known pf b tail,
-  brel gd M os its Mf -> NJ M tab -> batch_ok K tab known pf b (os ++ tail) = true ->
-  exists tab' known' pf' b', NJ Mf tab' /\ batch_ok K tab' known' pf' b' tail = true.
+Lemma walk K gd : forall os M its Mf tab known pt b tail,
+  brel gd M os its Mf -> NJ M tab -> batch_ok K tab known pt b (os ++ tail) = true ->
+  exists tab' known' pt' b', NJ Mf tab' /\ batch_ok K tab' known' pt' b' tail = true.
 Proof.
-  induction os as [|o os IH]; intros M its Mf tab known pf b tail H HJ Hb; destruct its as [|it its]; cbn in H; try contradiction; try (destruct o; contradiction).
+  induction os as [|o os IH]; intros M its Mf tab known pt b tail H HJ Hb; destruct its as [|it its]; cbn in H; try contradiction; try (destruct o; contradiction).
   - subst. cbn in Hb. eauto 10.
   - destruct o; destruct it; cbn in H; try contradiction; cbn [app batch_ok] in Hb.
     + destruct H as (A & B & C). subst. rewrite !andb_true_iff in Hb. destruct Hb as (_ & Hb).
       eapply IH; [exact C | | exact Hb]. apply NJ_parse. exact HJ.
-    + destruct H as (A & B & C & D). rewrite !andb_true_iff in Hb. destruct Hb as (_ & Hb).
+    + destruct H as (A & B & C & D). destruct (alookup n tab); [|discriminate]. rewrite !andb_true_iff in Hb. destruct Hb as (_ & Hb).
       eapply IH; [exact D | exact HJ | exact Hb].
     + destruct H as (A & B & C & D). rewrite !andb_true_iff in Hb. destruct Hb as (_ & Hb).
       eapply IH; [exact D | exact HJ | exact Hb].
-    + rewrite !andb_true_iff in Hb. destruct Hb as (_ & Hb). eapply IH; [exact H | exact HJ | exact Hb].
+    + destruct H as (A & B). rewrite !andb_true_iff in Hb. destruct Hb as (_ & Hb). eapply IH; [exact B | exact HJ | exact Hb].
+    + destruct H as (A & B). rewrite !andb_true_iff in Hb. destruct Hb as (_ & Hb). eapply IH; [exact B | exact HJ | exact Hb].
     + destruct H as (A & C). subst. rewrite !andb_true_iff in Hb. destruct Hb as (Hn0 & Hb).
       apply negb_true_iff in Hn0. rewrite Hn0 in C.
       eapply IH; [exact C | | exact Hb]. apply NJ_close. exact HJ.
+    + destruct H as (A & B). eapply IH; [exact B | exact HJ | exact Hb].
 Qed.
 
 (* consequence used when a Bind/Describe is buffered: the name is in the client map *)
 Lemma buffered_lookup K gd os M0 its Mf tab b n (o : op) :
-  (exists c, o = Bind c n \/ o = Describe c n) ->
+  (exists c, (exists p, o = Bind c p n) \/ o = Describe c n) ->
   brel gd M0 os its Mf -> NJ M0 tab ->
-  batch_ok K tab [] false b (os ++ [o]) = true ->
+  batch_ok K tab [] [] b (os ++ [o]) = true ->
   exists g st, alookup n Mf = Some (g, st).
 Proof.
   intros Ho H H0 Hb.
-  destruct (walk K gd os M0 its Mf tab [] false b [o] H H0 Hb) as (tab' & known' & pf' & b' & J & Hb').
+  destruct (walk K gd os M0 its Mf tab [] [] b [o] H H0 Hb) as (tab' & known' & pt' & b' & J & Hb').
   assert (Hl : alookup n tab' <> None).
-  { destruct Ho as [c [->| ->]]; cbn in Hb'; rewrite !andb_true_iff in Hb'; destruct Hb' as ((Hl & _) & _);
-      destruct (alookup n tab'); congruence. }
+  { destruct Ho as [c [[p ->]| ->]]; cbn in Hb'.
+    - destruct (alookup n tab'); [discriminate | discriminate].
+    - rewrite !andb_true_iff in Hb'. destruct Hb' as ((Hl & _) & _). destruct (alookup n tab'); congruence. }
   specialize (J n). unfold mapx in J. destruct (alookup n Mf) as [[g st]|]; [eauto|]. cbn in J. congruence.
 Qed.
 
@@ -922,24 +975,22 @@ Proof.
     rewrite ?Nat.add_0_r; repeat (f_equal; try lia).
 Qed.
 
-Lemma fexp_app gd ms : forall p m, fexp gd p (ms ++ [m]) = fexp gd p ms ++ fexp gd (fportal gd p ms) [m].
+Lemma fexp_app gd ms : forall pt m, fexp gd pt (ms ++ [m]) = fexp gd pt ms ++ fexp gd (fportal gd pt ms) [m].
 Proof.
-  induction ms as [|m0 r IH]; intros p m; [reflexivity|].
+  induction ms as [|m0 r IH]; intros pt m; [reflexivity|].
   destruct m0; cbn [app fexp fportal]; rewrite ?IH; reflexivity.
 Qed.
 
-Lemma fportal_app gd ms : forall p m, fportal gd p (ms ++ [m]) = fportal gd (fportal gd p ms) [m].
-Proof. induction ms as [|m0 r IH]; intros p m; [reflexivity|]. destruct m0; cbn [app fportal]; rewrite ?IH; reflexivity. Qed.
+Lemma fportal_app gd ms : forall pt m, fportal gd pt (ms ++ [m]) = fportal gd (fportal gd pt ms) [m].
+Proof. induction ms as [|m0 r IH]; intros pt m; [reflexivity|]. destruct m0; cbn [app fportal]; rewrite ?IH; reflexivity. Qed.
 
-Definition oflag (p : option nat) : bool := match p with Some _ => true | None => false end.
-
-Lemma fexec_ok_app gd ms : forall p m, fexec_ok (oflag p) ms ->
-  (m = BExec -> fportal gd p ms <> None) -> fexec_ok (oflag p) (ms ++ [m]).
+Lemma fexec_ok_app gd ms : forall pt m, fexec_ok gd pt ms ->
+  (forall p, (m = BExec p \/ m = BDescP p) -> alookup p (fportal gd pt ms) <> None) -> fexec_ok gd pt (ms ++ [m]).
 Proof.
-  induction ms as [|m0 r IH]; intros p m H Hm.
-  - cbn in *. destruct m; cbn; auto. split; auto. destruct p; [reflexivity|]. exfalso. apply Hm; reflexivity.
+  induction ms as [|m0 r IH]; intros pt m H Hm.
+  - cbn in *. destruct m; cbn; auto; split; auto.
   - destruct m0; cbn [app fexec_ok fportal] in *; try (apply IH; auto; fail).
-    + apply (IH (Some (nth g gd 0))); auto.
+    + destruct H as [H1 H2]. split; auto.
     + destruct H as [H1 H2]. split; auto.
 Qed.
 
@@ -956,7 +1007,7 @@ Qed.
 Record LI (K : cfg) (gd : list nat) (Mf : cmapT) (a : sacc) (M : cmapT) (d : dstate) (os : list op) (its : list item)
           (known : list nat) (b : nat) (tl rest : list nat) (drs : list reply) : Prop := {
   li_brel : brel gd M os its Mf;
-  li_ok : batch_ok K (d_tab d) known (oflag (d_portal d)) b os = true;
+  li_ok : batch_ok K (d_tab d) known (d_portal d) b os = true;
   li_skip : d_skip d = false;
   li_nj : NJ M (d_tab d);
   li_map : a_map a = Mf;
@@ -965,10 +1016,10 @@ Record LI (K : cfg) (gd : list nat) (Mf : cmapT) (a : sacc) (M : cmapT) (d : dst
   li_touch : forall n, In n known -> exists g st, alookup n M = Some (g, st) /\ In g tl;
   li_refs : forall g, In g (refs (a_fwd a)) -> In g tl;
   li_fwd : fwd_good K gd (fun g => alookup g (btab (a_sv a)) <> None) (a_fwd a);
-  li_exec : fexec_ok false (a_fwd a);
-  li_portal : fportal gd None (a_fwd a) = d_portal d;
-  li_pgood : forall st, d_portal d = Some st -> kind K st = Good;
-  li_norm : norm (a_syn a ++ fexp gd None (a_fwd a)) = norm drs }.
+  li_exec : fexec_ok gd [] (a_fwd a);
+  li_portal : fportal gd [] (a_fwd a) = d_portal d;
+  li_pgood : pt_good K (d_portal d);
+  li_norm : norm (a_syn a ++ fexp gd [] (a_fwd a)) = norm drs }.
 
 Section Loop.
 Variable K : cfg.
@@ -1024,7 +1075,7 @@ Proof.
       * split; [|split; [|split]]; auto.
         -- rewrite (si_pend _ _ _ _ _ _ HS'); [congruence | apply in_app_iff; right; left; reflexivity].
         -- intros X. apply Em. apply in_app_iff. left. apply Hrefs. apply pnames_refs. exact X.
-    + change false with (oflag None). apply fexec_ok_app with (gd := gd); [exact Hexec | discriminate].
+    + apply fexec_ok_app; [exact Hexec | intros p0 [X|X]; discriminate].
     + rewrite fportal_app. cbn. exact Hport.
     + rewrite fexp_app. cbn [fexp]. rewrite app_assoc. apply norm_snoc_congr. exact Hnorm.
 Qed.
@@ -1052,17 +1103,18 @@ Proof.
   eapply fwd_good_ext; [|exact Hfwd]. intros x Hx'. cbn. rewrite Hframe; [tauto | auto].
 Qed.
 
-Lemma li_step_bind a M d c n os g st n' its known b tl rest drs :
-  LI K gd Mf a M d (Bind c n :: os) (IBind g st n' :: its) known b tl rest drs ->
+Lemma li_step_bind a M d c p n os g st n' p' its known b tl rest drs :
+  LI K gd Mf a M d (Bind c p n :: os) (IBind g st n' p' :: its) known b tl rest drs ->
   exists tl1 rest1,
-    LI K gd Mf (sitem K a (IBind g st n')) M (fst (dstep K d (Bind c n))) os its (n :: known) (if mem n known then b else b - 1) tl1 rest1
-       (drs ++ snd (dstep K d (Bind c n))).
+    LI K gd Mf (sitem K a (IBind g st n' p')) M (fst (dstep K d (Bind c p n))) os its (n :: known) (if mem n known then b else b - 1) tl1 rest1
+       (drs ++ snd (dstep K d (Bind c p n))).
 Proof.
   intros HLI. pose proof HLI as [Hbrel Hok Hskip Hnj Hmap Hsrv Hbud Htouch Hrefs Hfwd Hexec Hport Hpg Hnorm].
-  cbn in Hbrel. destruct Hbrel as (-> & HM & Hgd & Hbrel). cbn [batch_ok] in Hok.
-  apply andb3 in Hok as (Hl & Hb & Hok).
+  cbn in Hbrel. destruct Hbrel as ((-> & ->) & HM & Hgd & Hbrel). cbn [batch_ok] in Hok.
   assert (Hst : alookup n (d_tab d) = Some st).
   { pose proof (Hnj n) as X. unfold mapx in X. rewrite HM in X. cbn in X. congruence. }
+  rewrite Hst in Hok.
+  apply andb3 in Hok as (Hl & Hb & Hok).
   assert (Hb' : (mem n known = true /\ In g tl) \/ (mem n known = false /\ 0 < b)).
   { destruct (mem n known) eqn:Em.
     - left. split; auto. apply mem_In in Em. destruct (Htouch n Em) as (g0 & st1 & A & B). rewrite HM in A. inversion A; subst. exact B.
@@ -1072,7 +1124,7 @@ Proof.
     as (tl1 & rest1 & Hk & Ea & Ef & Es & HS' & Hlen & Hgtl & Hsub & Hfg & Hdef & Hsame).
   cbn [sitem]. exists tl1, rest1.
   unfold dstep. rewrite Hskip, Hst. cbn [fst snd].
-  constructor; cbn [a_map a_sv a_pl a_fwd a_syn d_tab d_portal d_skip oflag]; auto.
+  constructor; cbn [a_map a_sv a_pl a_fwd a_syn d_tab d_portal d_skip]; auto.
   - rewrite Ea. exact Hmap.
   - rewrite Ef, pnames_app. cbn. rewrite app_nil_r. exact HS'.
   - destruct Hb' as [[Em X]|[Em X]]; rewrite Em; [specialize (Hsame X); lia | lia].
@@ -1081,9 +1133,9 @@ Proof.
     + destruct (Htouch n0 Hn0) as (g0 & st1 & A & B). exists g0, st1. split; auto.
   - intros x Hx. rewrite Ef, refs_app in Hx. apply in_app_iff in Hx as [Hx|[<-|[]]]; auto.
   - rewrite Ef. apply fwd_good_snoc; auto.
-  - rewrite Ef. change false with (oflag None). apply fexec_ok_app with (gd := gd); [exact Hexec | discriminate].
-  - rewrite Ef, fportal_app. cbn. f_equal. apply nth_of_gd. exact Hgd.
-  - intros st1 H1. inversion H1; subst. exact Hk.
+  - rewrite Ef. apply fexec_ok_app; [exact Hexec | intros p0 [X|X]; discriminate].
+  - rewrite Ef, fportal_app. cbn [fportal]. rewrite Hport, (nth_of_gd _ _ _ Hgd). reflexivity.
+  - apply pt_good_insert; auto.
   - rewrite Ef, Es, fexp_app. cbn [fexp]. rewrite app_assoc. apply norm_snoc_congr. exact Hnorm.
 Qed.
 
@@ -1107,7 +1159,7 @@ Proof.
     as (tl1 & rest1 & Hk & Ea & Ef & Es & HS' & Hlen & Hgtl & Hsub & Hfg & Hdef & Hsame).
   cbn [sitem]. exists tl1, rest1.
   unfold dstep. rewrite Hskip, Hst. cbn [fst snd].
-  constructor; cbn [a_map a_sv a_pl a_fwd a_syn d_tab d_portal d_skip oflag]; auto.
+  constructor; cbn [a_map a_sv a_pl a_fwd a_syn d_tab d_portal d_skip]; auto.
   - rewrite Ea. exact Hmap.
   - rewrite Ef, pnames_app. cbn. rewrite app_nil_r. exact HS'.
   - destruct Hb' as [[Em X]|[Em X]]; rewrite Em; [specialize (Hsame X); lia | lia].
@@ -1116,24 +1168,24 @@ Proof.
     + destruct (Htouch n0 Hn0) as (g0 & st1 & A & B). exists g0, st1. split; auto.
   - intros x Hx. rewrite Ef, refs_app in Hx. apply in_app_iff in Hx as [Hx|[<-|[]]]; auto.
   - rewrite Ef. apply fwd_good_snoc; auto.
-  - rewrite Ef. change false with (oflag None). apply fexec_ok_app with (gd := gd); [exact Hexec | discriminate].
+  - rewrite Ef. apply fexec_ok_app; [exact Hexec | intros p0 [X|X]; discriminate].
   - rewrite Ef, fportal_app. cbn. exact Hport.
   - rewrite Ef, Es, fexp_app. cbn [fexp]. rewrite (nth_of_gd _ _ _ Hgd). rewrite app_assoc. apply norm_snoc_congr. exact Hnorm.
 Qed.
 
-Lemma li_step_exec a M d c os its known b tl rest drs :
-  LI K gd Mf a M d (Execute c :: os) (IExec :: its) known b tl rest drs ->
-  LI K gd Mf (sitem K a IExec) M (fst (dstep K d (Execute c))) os its known b tl rest (drs ++ snd (dstep K d (Execute c))).
+Lemma li_step_exec a M d c p p' os its known b tl rest drs :
+  LI K gd Mf a M d (Execute c p :: os) (IExec p' :: its) known b tl rest drs ->
+  LI K gd Mf (sitem K a (IExec p')) M (fst (dstep K d (Execute c p))) os its known b tl rest (drs ++ snd (dstep K d (Execute c p))).
 Proof.
   intros [Hbrel Hok Hskip Hnj Hmap Hsrv Hbud Htouch Hrefs Hfwd Hexec Hport Hpg Hnorm].
-  cbn in Hbrel. cbn [batch_ok] in Hok. rewrite !andb_true_iff in Hok. destruct Hok as (Hpf & Hok).
-  destruct (d_portal d) as [st|] eqn:Ep; [|discriminate].
-  pose proof (Hpg st eq_refl) as Hk.
+  cbn in Hbrel. destruct Hbrel as (-> & Hbrel). cbn [batch_ok] in Hok. rewrite !andb_true_iff in Hok. destruct Hok as (Hpf & Hok).
+  destruct (alookup p (d_portal d)) as [st|] eqn:Ep; [|discriminate].
+  pose proof (Hpg p st Ep) as Hk.
   cbn [sitem].
   unfold dstep. rewrite Hskip, Ep, Hk. cbn [fst snd].
   constructor; cbn [a_map a_sv a_pl a_fwd a_syn d_tab d_portal d_skip].
   - exact Hbrel.
-  - rewrite Ep. exact Hok.
+  - exact Hok.
   - exact Hskip.
   - exact Hnj.
   - exact Hmap.
@@ -1142,10 +1194,62 @@ Proof.
   - exact Htouch.
   - intros x Hx. rewrite refs_app in Hx. apply in_app_iff in Hx as [Hx|[]]; auto.
   - apply fwd_good_snoc; [exact Hfwd | exact I].
-  - change false with (oflag None). apply fexec_ok_app with (gd := gd); [exact Hexec|]. intros _. rewrite Hport. discriminate.
-  - rewrite fportal_app. cbn. rewrite Hport. symmetry. exact Ep.
-  - rewrite Ep. exact Hpg.
-  - rewrite fexp_app. cbn [fexp]. rewrite Hport. rewrite app_assoc. apply norm_snoc_congr. exact Hnorm.
+  - apply fexec_ok_app; [exact Hexec|]. intros p0 [X|X]; inversion X; subst. rewrite Hport, Ep. discriminate.
+  - rewrite fportal_app. cbn. exact Hport.
+  - exact Hpg.
+  - rewrite fexp_app. cbn [fexp]. rewrite Hport, Ep. cbn [prep]. rewrite app_assoc. apply norm_snoc_congr. exact Hnorm.
+Qed.
+
+Lemma li_step_descp a M d c p p' os its known b tl rest drs :
+  LI K gd Mf a M d (DescribeP c p :: os) (IDescP p' :: its) known b tl rest drs ->
+  LI K gd Mf (sitem K a (IDescP p')) M (fst (dstep K d (DescribeP c p))) os its known b tl rest (drs ++ snd (dstep K d (DescribeP c p))).
+Proof.
+  intros [Hbrel Hok Hskip Hnj Hmap Hsrv Hbud Htouch Hrefs Hfwd Hexec Hport Hpg Hnorm].
+  cbn in Hbrel. destruct Hbrel as (-> & Hbrel). cbn [batch_ok] in Hok. rewrite !andb_true_iff in Hok. destruct Hok as (Hpf & Hok).
+  destruct (alookup p (d_portal d)) as [st|] eqn:Ep; [|discriminate].
+  cbn [sitem].
+  unfold dstep. rewrite Hskip, Ep. cbn [fst snd].
+  constructor; cbn [a_map a_sv a_pl a_fwd a_syn d_tab d_portal d_skip].
+  - exact Hbrel.
+  - exact Hok.
+  - exact Hskip.
+  - exact Hnj.
+  - exact Hmap.
+  - rewrite pnames_app. cbn. rewrite app_nil_r. exact Hsrv.
+  - exact Hbud.
+  - exact Htouch.
+  - intros x Hx. rewrite refs_app in Hx. apply in_app_iff in Hx as [Hx|[]]; auto.
+  - apply fwd_good_snoc; [exact Hfwd | exact I].
+  - apply fexec_ok_app; [exact Hexec|]. intros p0 [X|X]; inversion X; subst. rewrite Hport, Ep. discriminate.
+  - rewrite fportal_app. cbn. exact Hport.
+  - exact Hpg.
+  - rewrite fexp_app. cbn [fexp]. rewrite Hport, Ep. cbn [prep]. rewrite app_assoc. apply norm_snoc_congr. exact Hnorm.
+Qed.
+
+(* Close of a PORTAL: forwarded; neither the client map nor anything about statements changes *)
+Lemma li_step_closep a M d c p p' os its known b tl rest drs :
+  LI K gd Mf a M d (CloseP c p :: os) (IClosePortal p' :: its) known b tl rest drs ->
+  LI K gd Mf (sitem K a (IClosePortal p')) M (fst (dstep K d (CloseP c p))) os its known b tl rest (drs ++ snd (dstep K d (CloseP c p))).
+Proof.
+  intros [Hbrel Hok Hskip Hnj Hmap Hsrv Hbud Htouch Hrefs Hfwd Hexec Hport Hpg Hnorm].
+  cbn in Hbrel. destruct Hbrel as (-> & Hbrel). cbn [batch_ok] in Hok.
+  cbn [sitem].
+  unfold dstep. rewrite Hskip. cbn [fst snd].
+  constructor; cbn [a_map a_sv a_pl a_fwd a_syn d_tab d_portal d_skip].
+  - exact Hbrel.
+  - exact Hok.
+  - reflexivity.
+  - exact Hnj.
+  - exact Hmap.
+  - rewrite pnames_app. cbn. rewrite app_nil_r. exact Hsrv.
+  - exact Hbud.
+  - exact Htouch.
+  - intros x Hx. rewrite refs_app in Hx. apply in_app_iff in Hx as [Hx|[]]; auto.
+  - apply fwd_good_snoc; [exact Hfwd | exact I].
+  - apply fexec_ok_app; [exact Hexec|]. intros p0 [X|X]; discriminate.
+  - rewrite fportal_app. cbn [fportal]. rewrite Hport. reflexivity.
+  - apply pt_good_remove. exact Hpg.
+  - rewrite fexp_app. cbn [fexp]. rewrite app_assoc. apply norm_snoc_congr. exact Hnorm.
 Qed.
 
 Lemma li_step_close a M d c n os n' its known b tl rest drs :
@@ -1156,7 +1260,7 @@ Proof.
   cbn in Hbrel. destruct Hbrel as (-> & Hbrel). cbn [batch_ok] in Hok. rewrite !andb_true_iff in Hok. destruct Hok as (Hn0 & Hok).
   apply negb_true_iff in Hn0. rewrite Hn0 in Hbrel. cbn [sitem]. rewrite Hn0.
   unfold dstep. rewrite Hskip. cbn [fst snd].
-  constructor; cbn [a_map a_sv a_pl a_fwd a_syn d_tab d_portal d_skip oflag]; auto.
+  constructor; cbn [a_map a_sv a_pl a_fwd a_syn d_tab d_portal d_skip]; auto.
   - apply NJ_close. exact Hnj.
   - intros n1 Hq. apply remove_nat_In in Hq as [Hq Hne]. rewrite alookup_aremove_neq by assumption. apply Htouch. exact Hq.
   - rewrite <- app_assoc. cbn [app]. rewrite norm_move by reflexivity. apply norm_snoc_congr. exact Hnorm.
@@ -1179,20 +1283,28 @@ Proof.
       destruct (dstep K d (Parse c n st)) as [d1 o1] eqn:Ed. cbn [fst snd] in HLI1.
       destruct (IH _ _ _ _ _ _ _ _ _ HLI1) as (known' & b' & tl' & rest' & HLI').
       destruct (drun K d1 os) as [d2 o2]. cbn [fst snd] in *. rewrite <- app_assoc in HLI'. eauto 10.
-    + destruct (li_step_bind _ _ _ _ _ _ _ _ _ _ _ _ _ _ _ HLI) as (tl1 & rest1 & HLI1).
-      destruct (dstep K d (Bind c n)) as [d1 o1] eqn:Ed. cbn [fst snd] in HLI1.
+    + destruct Hb as ((-> & ->) & _). destruct (li_step_bind _ _ _ _ _ _ _ _ _ _ _ _ _ _ _ _ _ HLI) as (tl1 & rest1 & HLI1).
+      destruct (dstep K d (Bind c p n)) as [d1 o1] eqn:Ed. cbn [fst snd] in HLI1.
       destruct (IH _ _ _ _ _ _ _ _ _ HLI1) as (known' & b' & tl' & rest' & HLI').
       destruct (drun K d1 os) as [d2 o2]. cbn [fst snd] in *. rewrite <- app_assoc in HLI'. eauto 10.
     + destruct (li_step_desc _ _ _ _ _ _ _ _ _ _ _ _ _ _ _ HLI) as (tl1 & rest1 & HLI1).
       destruct (dstep K d (Describe c n)) as [d1 o1] eqn:Ed. cbn [fst snd] in HLI1.
       destruct (IH _ _ _ _ _ _ _ _ _ HLI1) as (known' & b' & tl' & rest' & HLI').
       destruct (drun K d1 os) as [d2 o2]. cbn [fst snd] in *. rewrite <- app_assoc in HLI'. eauto 10.
-    + pose proof (li_step_exec _ _ _ _ _ _ _ _ _ _ _ HLI) as HLI1.
-      destruct (dstep K d (Execute c)) as [d1 o1] eqn:Ed. cbn [fst snd] in HLI1.
+    + pose proof (li_step_descp _ _ _ _ _ _ _ _ _ _ _ _ _ HLI) as HLI1.
+      destruct (dstep K d (DescribeP c p)) as [d1 o1] eqn:Ed. cbn [fst snd] in HLI1.
+      destruct (IH _ _ _ _ _ _ _ _ _ HLI1) as (known' & b' & tl' & rest' & HLI').
+      destruct (drun K d1 os) as [d2 o2]. cbn [fst snd] in *. rewrite <- app_assoc in HLI'. eauto 10.
+    + pose proof (li_step_exec _ _ _ _ _ _ _ _ _ _ _ _ _ HLI) as HLI1.
+      destruct (dstep K d (Execute c p)) as [d1 o1] eqn:Ed. cbn [fst snd] in HLI1.
       destruct (IH _ _ _ _ _ _ _ _ _ HLI1) as (known' & b' & tl' & rest' & HLI').
       destruct (drun K d1 os) as [d2 o2]. cbn [fst snd] in *. rewrite <- app_assoc in HLI'. eauto 10.
     + destruct Hb as (-> & _). pose proof (li_step_close _ _ _ _ _ _ _ _ _ _ _ _ _ HLI) as HLI1.
       destruct (dstep K d (Close c n)) as [d1 o1] eqn:Ed. cbn [fst snd] in HLI1.
+      destruct (IH _ _ _ _ _ _ _ _ _ HLI1) as (known' & b' & tl' & rest' & HLI').
+      destruct (drun K d1 os) as [d2 o2]. cbn [fst snd] in *. rewrite <- app_assoc in HLI'. eauto 10.
+    + pose proof (li_step_closep _ _ _ _ _ _ _ _ _ _ _ _ _ HLI) as HLI1.
+      destruct (dstep K d (CloseP c p)) as [d1 o1] eqn:Ed. cbn [fst snd] in HLI1.
       destruct (IH _ _ _ _ _ _ _ _ _ HLI1) as (known' & b' & tl' & rest' & HLI').
       destruct (drun K d1 os) as [d2 o2]. cbn [fst snd] in *. rewrite <- app_assoc in HLI'. eauto 10.
 Qed.
@@ -1224,16 +1336,16 @@ Qed.
 (* sending the batch at the end of the 'S' arm *)
 Lemma final_exchange K gd univ sv tl rest fwd :
   gd_good K univ gd -> SInv K gd sv tl rest (pnames fwd) ->
-  fwd_good K gd (fun g => alookup g (btab sv) <> None) fwd -> fexec_ok false fwd ->
-  exists sv', exchange K sv fwd = (sv', fexp gd None fwd ++ [RZ]) /\ SrvInv K sv' /\ tab_ok gd (btab sv').
+  fwd_good K gd (fun g => alookup g (btab sv) <> None) fwd -> fexec_ok gd [] fwd ->
+  exists sv', exchange K sv fwd = (sv', fexp gd [] fwd ++ [RZ]) /\ SrvInv K sv' /\ tab_ok gd (btab sv').
 Proof.
   intros Hg [H1 H2 H3 H4 H5 H6 H7] Hf He. unfold exchange.
-  destruct (brun_good K gd fwd (btab sv) None H7 (tab_good_of K univ gd _ Hg H7) Hf He ltac:(discriminate))
+  destruct (brun_good K gd fwd (btab sv) [] H7 (tab_good_of K univ gd _ Hg H7) Hf He ltac:(intros ? ? X; discriminate))
     as (t' & Hr & Ht' & _ & Hd & Hrows).
   rewrite brun_app, Hr. cbn [brun bstep b_tab app].
-  assert (Hne : quiet K (fexp gd None fwd ++ [RZ])).
+  assert (Hne : quiet K (fexp gd [] fwd ++ [RZ])).
   { split.
-    - intros X. apply in_app_iff in X as [X|[X|[]]]; [|discriminate]. revert X. apply (fexp_noerr gd fwd None). exact He.
+    - intros X. apply in_app_iff in X as [X|[X|[]]]; [|discriminate]. revert X. apply (fexp_noerr gd fwd []). exact He.
     - intros st X. apply in_app_iff in X as [X|[X|[]]]; [auto | discriminate]. }
   destruct (recv_same K (lru sv) (queue sv) _ Hne) as [q' Hq]. rewrite Hq.
   eexists. split; [reflexivity|]. split; [|exact Ht']. unfold SrvInv. cbn [lru btab]. rewrite H1. split; [exact H2|]. split; [exact H3|].
@@ -1257,7 +1369,7 @@ Hypothesis Hinj : forall a b, In a univ -> In b univ -> hash K a = hash K b -> a
 
 (** ** Sync *)
 Lemma sync_step w S c s :
-  GInv K univ w S -> batch_ok K (s_tab (S c)) [] false (cs K) (s_buf (S c)) = true ->
+  GInv K univ w S -> batch_ok K (s_tab (S c)) [] [] (cs K) (s_buf (S c)) = true ->
   map norm_obs (snd (step K w (Sync c s))) = map norm_obs (snd (spec_step K S (Sync c s))) /\
   GInv K univ (fst (step K w (Sync c s))) (fst (spec_step K S (Sync c s))).
 Proof.
@@ -1266,9 +1378,9 @@ Proof.
   destruct (Hcl c) as [Hal (M0 & HM0 & Hbrel)].
   pose proof HW as (_ & HWc & HWs).
   assert (HLI : LI K (gdef w) (cmap (clients w c)) (mkAcc (cmap (clients w c)) (servers w s) (plru w) [] []) M0
-                   (mkD (s_tab (S c)) None false) (s_buf (S c)) (cbuf (clients w c)) [] (cs K) [] (lru (servers w s)) []).
+                   (mkD (s_tab (S c)) [] false) (s_buf (S c)) (cbuf (clients w c)) [] (cs K) [] (lru (servers w s)) []).
   { destruct (Hsrv s) as (Hnd & Hlen & Hdom).
-    constructor; cbn [a_map a_sv a_pl a_fwd a_syn d_tab d_portal d_skip oflag pnames refs flat_map fwd_good fexec_ok fportal fexp app length].
+    constructor; cbn [a_map a_sv a_pl a_fwd a_syn d_tab d_portal d_skip pnames refs flat_map fwd_good fexec_ok fportal fexp app length].
     - exact Hbrel.
     - exact Hb.
     - reflexivity.
@@ -1288,14 +1400,14 @@ Proof.
     - exact I.
     - exact I.
     - reflexivity.
-    - intros st X; discriminate.
+    - intros ? ? X; discriminate.
     - reflexivity. }
   destruct (sitems_sim K (gdef w) univ (cmap (clients w c)) Hcs Hgood _ _ _ _ _ _ _ _ _ _ HLI)
     as (known' & b' & tl' & rest' & HLI').
   cbn [app] in HLI'.
   cbn [step spec_step] in *. rewrite Hal in *. cbn [negb] in *.
   set (a' := sitems K (mkAcc (cmap (clients w c)) (servers w s) (plru w) [] []) (cbuf (clients w c))) in *.
-  destruct (drun K (mkD (s_tab (S c)) None false) (s_buf (S c))) as [d' rs] eqn:Ed. cbn [fst snd] in HLI'.
+  destruct (drun K (mkD (s_tab (S c)) [] false) (s_buf (S c))) as [d' rs] eqn:Ed. cbn [fst snd] in HLI'.
   pose proof HLI' as [Lbrel Lok Lskip Lnj Lmap Lsrv Lbud Ltouch Lrefs Lfwd Lexec Lport Lpg Lnorm].
   cbn in Lbrel.
   assert (Hcrel : crel (gdef w) (d_tab d') [] (a_map a') []).
@@ -1324,17 +1436,17 @@ Lemma batch_ok_sync tab ment pf b buf c s :
   batch_ok K tab ment pf b (buf ++ [Sync c s]) = batch_ok K tab ment pf b buf.
 Proof.
   revert tab ment pf b. induction buf as [|o r IH]; intros; cbn; [reflexivity|].
-  destruct o; rewrite ?IH; reflexivity.
+  destruct o; rewrite ?IH; try reflexivity. destruct (alookup n tab); [rewrite IH|]; reflexivity.
 Qed.
 
 (* what the guard says about the op being buffered *)
 Lemma last_op_facts gd M0 os its Mf tab b o :
   brel gd M0 os its Mf -> NJ M0 tab ->
-  batch_ok K tab [] false b (os ++ [o]) = true ->
+  batch_ok K tab [] [] b (os ++ [o]) = true ->
   match o with Parse _ _ st => kind K st = Good | Close _ n => n <> 0 | _ => True end.
 Proof.
   intros H H0 Hb.
-  destruct (walk K gd os M0 its Mf tab [] false b [o] H H0 Hb) as (tab' & known' & pf' & b' & _ & Hb').
+  destruct (walk K gd os M0 its Mf tab [] [] b [o] H H0 Hb) as (tab' & known' & pf' & b' & _ & Hb').
   destruct o; auto; cbn [batch_ok] in Hb'.
   2:{ rewrite !andb_true_iff in Hb'. destruct Hb' as (Hn & _). apply negb_true_iff in Hn. apply Nat.eqb_neq in Hn. exact Hn. }
   apply andb3 in Hb' as (Hk & _).
@@ -1379,14 +1491,14 @@ Lemma ginv_step w S o :
   GInv K univ w S ->
   (forall st, In st (stmts_of [o]) -> In st univ) ->
   (match op_client o with
-   | Some c => batch_ok K (s_tab (S c)) [] false (cs K) (s_buf (S c) ++ [o]) = true
+   | Some c => batch_ok K (s_tab (S c)) [] [] (cs K) (s_buf (S c) ++ [o]) = true
    | None => True end) ->
   map norm_obs (snd (step K w o)) = map norm_obs (snd (spec_step K S o)) /\
   GInv K univ (fst (step K w o)) (fst (spec_step K S o)).
 Proof.
   intros HG Hu Hb. pose proof HG as (HW & Hgood & Hsrv & Hcl).
   pose proof (winv_step K w o HW) as HW'.
-  destruct o as [c n st|c n|c n|c|c n|c s|s]; cbn [op_client] in Hb.
+  destruct o as [c n st|c p n|c n|c p|c p|c n|c p|c s|s]; cbn [op_client] in Hb.
   - (* Parse *)
     destruct (Hcl c) as [Hal (M0 & H0 & Hbrel)].
     pose proof (last_op_facts _ _ _ _ _ _ _ _ Hbrel H0 Hb) as Hk. cbn in Hk.
@@ -1406,24 +1518,32 @@ Proof.
     rewrite Hc1. reflexivity.
   - (* Bind *)
     destruct (Hcl c) as [Hal (M0 & H0 & Hbrel)].
-    destruct (buffered_lookup K _ _ _ _ _ _ _ n (Bind c n) ltac:(exists c; auto) Hbrel H0 Hb) as (g & st & Hl).
+    destruct (buffered_lookup K _ _ _ _ _ _ _ n (Bind c p n) ltac:(exists c; left; exists p; reflexivity) Hbrel H0 Hb) as (g & st & Hl).
     assert (Hgd : nth_error (gdef w) g = Some st) by (destruct HW as (_ & HWc & _); eapply (proj1 (HWc c)); apply alookup_In; exact Hl).
     cbn [step] in *. rewrite Hal in *. cbn [negb] in *. rewrite Hl in *. cbn [fst snd] in *. split; [reflexivity|].
-    eapply (ginv_buffer w S c (Bind c n) (IBind g st n)); eauto; cbn; auto.
+    eapply (ginv_buffer w S c (Bind c p n) (IBind g st n p)); eauto; cbn; auto.
   - (* Describe *)
     destruct (Hcl c) as [Hal (M0 & H0 & Hbrel)].
-    destruct (buffered_lookup K _ _ _ _ _ _ _ n (Describe c n) ltac:(exists c; auto) Hbrel H0 Hb) as (g & st & Hl).
+    destruct (buffered_lookup K _ _ _ _ _ _ _ n (Describe c n) ltac:(exists c; right; reflexivity) Hbrel H0 Hb) as (g & st & Hl).
     assert (Hgd : nth_error (gdef w) g = Some st) by (destruct HW as (_ & HWc & _); eapply (proj1 (HWc c)); apply alookup_In; exact Hl).
     cbn [step] in *. rewrite Hal in *. cbn [negb] in *. rewrite Hl in *. cbn [fst snd] in *. split; [reflexivity|].
     eapply (ginv_buffer w S c (Describe c n) (IDesc g st n)); eauto; cbn; auto.
+  - (* Describe portal *)
+    destruct (Hcl c) as [Hal _].
+    cbn [step] in *. rewrite Hal in *. cbn [negb fst snd] in *. split; [reflexivity|].
+    eapply (ginv_buffer w S c (DescribeP c p) (IDescP p)); eauto; cbn; eauto.
   - (* Execute *)
     destruct (Hcl c) as [Hal _].
     cbn [step] in *. rewrite Hal in *. cbn [negb fst snd] in *. split; [reflexivity|].
-    eapply (ginv_buffer w S c (Execute c) IExec); eauto; cbn; eauto.
+    eapply (ginv_buffer w S c (Execute c p) (IExec p)); eauto; cbn; eauto.
   - (* Close *)
     destruct (Hcl c) as [Hal _].
     cbn [step] in *. rewrite Hal in *. cbn [negb fst snd] in *. split; [reflexivity|].
     eapply (ginv_buffer w S c (Close c n) (IClose n)); eauto; cbn; eauto.
+  - (* Close portal *)
+    destruct (Hcl c) as [Hal _].
+    cbn [step] in *. rewrite Hal in *. cbn [negb fst snd] in *. split; [reflexivity|].
+    eapply (ginv_buffer w S c (CloseP c p) (IClosePortal p)); eauto; cbn; eauto.
   - (* Sync *)
     rewrite batch_ok_sync in Hb. apply sync_step; auto.
   - (* Cleanup *)
@@ -1558,4 +1678,27 @@ Proof.
   rewrite (refines_direct K (proj c ops)); [| |exact Hgc].
   - unfold spec_obs. apply spec_proj. reflexivity.
   - intros a b Ha Hb. apply Hh; apply (stmts_of_proj c); assumption.
+Qed.
+
+(** * Portals and statements are two name spaces *)
+Theorem portal_close_inert : forall K w c p a b,
+  (forall c', cmap (clients (fst (step K w (CloseP c p))) c') = cmap (clients w c')) /\
+  servers (fst (step K w (CloseP c p))) = servers w /\
+  plru (fst (step K w (CloseP c p))) = plru w /\
+  a_map (sitem K a (IClosePortal p)) = a_map a /\
+  a_sv (sitem K a (IClosePortal p)) = a_sv a /\
+  a_fwd (sitem K a (IClosePortal p)) = a_fwd a ++ [BCloseP p] /\
+  a_syn (sitem K a (IClosePortal p)) = a_syn a /\
+  b_tab (fst (bstep K b (BCloseP p))) = b_tab b /\
+  b_portal (fst (bstep K b (BClose p))) = b_portal b /\
+  d_tab (fst (dstep K (mkD (b_tab b) (b_portal b) (b_skip b)) (CloseP c p))) = b_tab b.
+Proof.
+  intros K w c p a b. repeat split; cbn [step sitem a_map a_sv a_fwd a_syn].
+  - intros c'. destruct (alive (clients w c)); cbn; [|reflexivity].
+    unfold upd. destruct (c' =? c) eqn:E; [apply Nat.eqb_eq in E; subst|]; reflexivity.
+  - destruct (alive (clients w c)); reflexivity.
+  - destruct (alive (clients w c)); reflexivity.
+  - unfold bstep. destruct (b_skip b); reflexivity.
+  - unfold bstep. destruct (b_skip b); reflexivity.
+  - unfold dstep. cbn. destruct (b_skip b); reflexivity.
 Qed.
